@@ -48,7 +48,9 @@ def mesh_world(mesh: dict, *, enc: dict | None = None, edges: bool = False, cent
     m["edges"] = [list(x) for x in e]
     enc = dict(enc or {})
     if edges:
-        enc.setdefault("edge_dim", "implied"); enc.setdefault("supplied", ["en"])
+        # a transposed edge table must declare edge_dimension (UGRID), otherwise it may be implied
+        enc.setdefault("edge_dim", "declared" if enc.get("transposed") else "implied")
+        enc.setdefault("supplied", ["en"])
     if centres:
         # face centre = a lattice point inside the face supplied as coordinate variables: use the
         # mean of the first triangle fan if integral, else the first vertex (values only need to be tags)
